@@ -413,6 +413,13 @@ def slice_len_lin(arg):
     x = deref_all(arg)
     while x[0] == 'call' and called(x[1], 'Deref::deref', 'AsRef::as_ref', 'str::as_bytes', 'String::as_bytes', 'String::as_str'):
         x = deref_all(x[2][0])
+    # N.to_be_bytes(): a byte array of the integer's width
+    if x[0] == 'call' and canon(x[1]).endswith(('to_be_bytes', 'to_le_bytes', 'to_ne_bytes')):
+        import re as _re
+        m = _re.search(r'impl (\w+)>::to_', x[1])
+        w = {'u8': 1, 'i8': 1, 'u16': 2, 'i16': 2, 'u32': 4, 'i32': 4, 'u64': 8, 'i64': 8, 'f64': 8, 'f32': 4}.get(m.group(1) if m else '')
+        if w:
+            return ({}, w)
     return ({('bytelen', x): 1}, 0)
 
 
